@@ -8,6 +8,7 @@ Traces == Batch.traces
 N == Len(Traces)
 VARIABLES tid, l, bad
 vars == <<tid, l, bad>>
+F(e, f, d) == IF f \in DOMAIN e THEN e[f] ELSE d     \* optional field
 Init == tid \in 1..N /\ l = 1 /\ bad = ""
 \* JSON lists -> the set-based items of ConcSem (one level of nesting in handler items)
 Conv(h) == IF h[1] = "P" THEN h ELSE <<"C", {h[2][i] : i \in 1..Len(h[2])}, h[3]>>
@@ -18,7 +19,9 @@ Step ==
   /\ LET e == Traces[tid][l] IN
      CASE e.e = "m" ->
             LET want == IF e.bare THEN TRUE ELSE Matches(KidSet(e.kids), Items(e.items), e.incl) IN
-            bad' = IF e.isinst # want THEN "C17.isinstance"
+            \* (a handler built from Exception subclasses and specialisations of Concurrent is a legal handler)
+            bad' = IF F(e, "rejected", FALSE) THEN "C17.handler_rejected"
+                   ELSE IF e.isinst # want THEN "C17.isinstance"
                    ELSE IF e.issub # want THEN "C17.issubclass"
                    ELSE IF ~e.ident THEN "C17.identity"
                    ELSE IF e.flat # Leaves(e.kids) THEN "C17.flattened"
